@@ -405,6 +405,52 @@ def _rule_list_leaves(cfg, e, at, depth: int = 0):
     return out
 
 
+# (relative path, qualified function) -> (number of reads reviewed, why a source position is right / harmless there)
+R17C_REVIEWED = {
+    ("src/sqlfluff/rules/aliasing/AL08.py", "Rule_AL08._eval"): (1, "text of the violation message only"),
+    ("src/sqlfluff/rules/convention/CV03.py", "Rule_CV03._eval"): (2, "identity test: is this comma the same token as the trailing one (same source position), not a layout decision"),
+    ("src/sqlfluff/utils/reflow/reindent.py", "_lint_line_buffer_indents"): (1, "debug log"),
+    ("src/sqlfluff/utils/reflow/reindent.py", "_revise_skipped_source_lines"): (1, "debug log"),
+    ("src/sqlfluff/utils/reflow/reindent.py", "_revise_templated_lines"): (1, "debug log"),
+    ("src/sqlfluff/utils/reflow/respace.py", "_determine_aligned_inline_spacing"): (6, "explicit, opt-in `use_source_positions` mode of alignment; every read is the source-arm of a conditional whose other arm is the working position"),
+}
+
+
+def _r17c(chk, repo) -> None:
+    """Within one fix run every pass works on a tree whose WORKING positions are recomputed after each
+    adopted fix, while source positions keep pointing into the original file.  A layout decision taken on
+    source line/column ('is this segment still on the line of the violation?') comes out differently
+    in the run that produced the text and in the run that reads it back -- the second run then changes
+    the file again."""
+    n = 0
+    seen = {}
+    for pre in ("src/sqlfluff/rules/", "src/sqlfluff/utils/reflow/", "src/sqlfluff/utils/functional/", "src/sqlfluff/utils/analysis/"):
+        for m in repo.iter_modules(pre):
+            for q, f in m.functions():
+                for node in walk_local(f):
+                    hit = None
+                    if isinstance(node, ast.Attribute) and node.attr in ("line_no", "line_pos") and isinstance(node.value, ast.Attribute) and node.value.attr == "pos_marker":
+                        hit = node
+                    if isinstance(node, ast.Call) and isinstance(node.func, ast.Attribute) and node.func.attr in ("source_position", "to_source_dict", "to_source_string"):
+                        hit = node
+                    if hit is not None:
+                        n += 1
+                        seen.setdefault((m.relpath, q), []).append(hit)
+    for key, nodes in sorted(seen.items()):
+        allowed, why = R17C_REVIEWED.get(key, (0, ""))
+        for i, node in enumerate(sorted(nodes, key=lambda x: (x.lineno, x.col_offset))):
+            chk.require(
+                i < allowed, "R17c", node,
+                f"{key[1]} reads a source position (`{short(node, 50)}`) "
+                + (f"beyond the {allowed} reviewed read(s) of this function" if allowed else "and is not a reviewed site")
+                + ": after an earlier fix of the same run the source line/column no longer says where the segment is, so the decision differs between the run that "
+                "writes the text and the run that reads it back (use working_line_no / working_loc)",
+                detail=f"{key[1]}: source-position read #{i + 1}",
+            )
+    chk.count("R17c.source_position_reads", n)
+    chk.floor("R17c.source_position_reads", 6)
+
+
 def run(chk) -> None:
     repo = chk.repo
     chk.rule("R17a", "every exit of the fix pass loop reachable from an adoption of a fixed tree is blocked by a flag that the adoption sets and nothing resets within the pass; loop-limit exhaustion never falls through to the normal return while fixing")
@@ -412,6 +458,8 @@ def run(chk) -> None:
     r = _roles(chk, repo)
     marks = _r17a(chk, r)
     _r17b(chk, repo, r, marks)
+    chk.rule("R17c", "rule and reflow code decides on working positions: reads of a segment's SOURCE line/column (stale once an earlier fix of the same run has moved text) occur only at the reviewed sites")
+    _r17c(chk, repo)
     chk.sample({"rules_loop": f"{LINTER}:{r.rules_loop.lineno}", "pass_loop": f"{LINTER}:{r.pass_loop.lineno}", "working_tree": r.tree, "fix_switch": r.fix_param, "adoptions": [a.lineno for a in r.adoptions]})
     chk.note(
         "Partial claim: decides that the fix loop returns only after a complete pass that adopted nothing (or returns the saved tree). "
@@ -426,6 +474,18 @@ from ..selftest import Variant  # noqa: E402
 _RET = "tree, initial_linting_errors, ignore_mask, rule_timings"
 
 VARIANTS: List[Variant] = [
+    Variant(
+        "lt05-comment-scan-bounded-by-the-source-line", "src/sqlfluff/rules/layout/LT05.py",
+        "                    if (\n                        seg.pos_marker.working_line_no\n                        != res.anchor.pos_marker.working_line_no\n                    ):\n",
+        "                    if seg.pos_marker.line_no != res.anchor.pos_marker.line_no:\n",
+        "R17c", "LT05", "seeded C17-1: a long line split by LT09 in the same run is only broken by LT05 in the next run", count=2,
+    ),
+    Variant(
+        "quiet-lt05-working-line-through-locals", "src/sqlfluff/rules/layout/LT05.py",
+        "                    if (\n                        seg.pos_marker.working_line_no\n                        != res.anchor.pos_marker.working_line_no\n                    ):\n",
+        "                    seg_line = seg.pos_marker.working_line_no\n                    anchor_line = res.anchor.pos_marker.working_line_no\n                    if seg_line != anchor_line:\n",
+        "QUIET", None, "working lines through locals", count=2,
+    ),
     # ---- behaviour-preserving edits: the check must stay quiet -------------------------------
     Variant(
         "quiet-flag-renamed", LINTER, "changed", "applied_any", "QUIET", None,
